@@ -13,9 +13,9 @@ theorem anyFail_noFail (n : Nat) : anyFail noFail n = false := by
 
 /-- with no failing allocation the plan form is the plain operation -/
 theorem Tbl.putobjF_noFail (s : Tbl K V) (k : K) (v : V) :
-    (s.putobjF cmp isEmpty noFail k v).map (fun r => (r.1, r.2.1)) = s.putobj cmp isEmpty k v := by
+    (s.putobjF cmp isEmpty noFail k v).map (fun r => (r.1, r.2.1)) = s.putobj cmp replaceAlways k v := by
   simp only [Tbl.putobjF, anyFail_noFail]
-  cases s.putobj cmp isEmpty k v <;> rfl
+  cases s.putobj cmp replaceAlways k v <;> rfl
 
 /-- **failure atomicity of put**: whatever allocation fails, `qtreetbl_putobj` returns (no
     fault), the table is still valid, and when it reports failure the contents and the key
@@ -23,7 +23,7 @@ theorem Tbl.putobjF_noFail (s : Tbl K V) (k : K) (v : V) :
 theorem Tbl.putobjF_spec (hc : CmpOk cmp) (plan : Plan) (s : Tbl K V) (k : K) (v : V) (hi : s.Inv cmp) :
     ∃ s' r n, s.putobjF cmp isEmpty plan k v = .ok (s', r, n) ∧ s'.Inv cmp ∧
       (r = false → s'.abs = s.abs ∧ s'.num = s.num) ∧
-      (r = true → s.putobj cmp isEmpty k v = .ok (s', true)) := by
+      (r = true → s.putobj cmp replaceAlways k v = .ok (s', true)) := by
   unfold Tbl.putobjF
   simp only
   generalize ((if (T.find cmp keyOf k s.root).1.isSome then 0 else 2) + (if isEmpty v then 0 else 1)) = n
@@ -39,7 +39,7 @@ theorem Tbl.putobjF_spec (hc : CmpOk cmp) (plan : Plan) (s : Tbl K V) (k : K) (v
       rw [hi.count, ← length_inorder, ← length_inorder, i1]
     · intro _
       exact ⟨by simp [Tbl.abs, i1], rfl⟩
-  · obtain ⟨s', h1, h2, _, _⟩ := Tbl.putobj_spec cmp hc isEmpty s k v hi
+  · obtain ⟨s', h1, h2, _, _⟩ := Tbl.putobj_spec cmp hc replaceAlways s k v hi
     exact ⟨s', true, n, by simp [hf, h1], h2, by simp, fun _ => h1⟩
 
 /-- the read accessors never change the table, whatever fails (they return values only) -/
